@@ -216,7 +216,14 @@ def _drive(case, ctx, make_reduction, S, lid, strategy, scitype, n, wl, fh, nx, 
         ctx.check("predict.window", int(f.cutoff) == off + n - 1, "reduce:%s:update_predict-moved-cutoff" % strategy, "update_predict left the cutoff elsewhere", got=f.cutoff)
         ctx.tag("then:update_predict")
     elif case["then"] != "none":
-        y2, X2 = _frame(S, n, n + n_upd, off, nx)
+        # the batch may restate the last observations with revised values: later values win, windows and training rows carry the revision
+        ov = case["dseed"] % 3 if case["values"] != "int-target" else 0
+        ov = min(ov, n - 1)
+        for t in range(n - ov, n):
+            S[0][t] = S[0][t] + 0.25
+        if ov:
+            ctx.tag("update:revises-%d-known-points" % ov)
+        y2, X2 = _frame(S, n - ov, n + n_upd, off, nx)
         before = len(lg)
         ok, _ = ctx.call("reduce:%s:update-exception" % strategy, f.update, y2, X2, update_params=(case["then"] == "update_refit"))
         if not ok:
